@@ -8,6 +8,7 @@ mod ops;
 mod report;
 mod rng;
 mod w_arena;
+mod w_c09;
 mod w_misc;
 
 use json::J;
@@ -82,10 +83,17 @@ fn main() {
     let args = parse();
     arena::install_panic_hook();
     let mut rep = Report::new();
+    // measure the per-chunk overhead once, before any refusal schedule is armed
+    halloc::Env::PLAIN.apply(1);
+    let _ = arena::Sim::<1>::measure_k(&mut rep);
     let t0 = std::time::Instant::now();
-    let known = match args.workload.as_str() {
+    let known = std::panic::catch_unwind(std::panic::AssertUnwindSafe(|| match args.workload.as_str() {
         "arena" => {
             w_arena::run(&args, &mut rep);
+            true
+        }
+        "c09" => {
+            w_c09::run(&args, &mut rep);
             true
         }
         "ctor_table" => {
@@ -101,6 +109,16 @@ fn main() {
             true
         }
         _ => false,
+    }));
+    let known = match known {
+        Ok(k) => k,
+        Err(_) => {
+            // a panic that escaped every catch_unwind of the harness: reported, never silent
+            let msg = arena::last_panic();
+            rep.inconclusive.push(format!("escaped panic: {} (at {})", msg, rep.ctx));
+            eprintln!("escaped panic: {} (at {})", msg, rep.ctx);
+            true
+        }
     };
     let mut o = rep.to_json();
     o.set("workload", J::s(args.workload.clone()));
